@@ -577,8 +577,11 @@ func (r *run) oracle() {
 	}
 	var results []rec
 	sentIdx := map[int]int{}
+	nsub := 0
 	for i, e := range lg {
 		switch e.Kind {
+		case "subscribe-invoked":
+			nsub++
 		case "cancel":
 			if cancelIdx < 0 {
 				cancelIdx = i
@@ -595,6 +598,7 @@ func (r *run) oracle() {
 	}
 	m := len(results)
 	r.c.FeatureN("results-received", int64(m))
+	r.c.Feature(fmt.Sprintf("subscribe-resolver-invocations:%d", nsub))
 	if closeObs < 0 {
 		r.violation("not-closed", "the consumer never observed the result channel being closed", nil)
 		return
